@@ -22,6 +22,9 @@ class Session:
         self.explorer = Explorer(max_paths=max_paths)
         self.it = Interp(self.repo, self.explorer, policy)
         self.repo.interp = self.it
+        # default contract of default_trace_codes(): the bundled table itself (read by the child interpreter from the
+        # repository under check); checks that need an arbitrary table install their own contract over this one
+        self.it.contracts.setdefault('pykdebugparser.trace_codes:default_trace_codes', bundled_codes_contract)
 
     def module(self, name):
         return self.repo.import_module(name)
@@ -51,6 +54,22 @@ class Session:
 
     def explore(self, thunk):
         return self.explorer.explore(thunk)
+
+
+_BUNDLED = []
+
+
+def bundled_codes_contract(it, func, args, kwargs, node):
+    if not _BUNDLED:
+        from .report import native
+        out = native({'kind': 'default_codes'})
+        if 'codes' not in out:
+            raise Unsupported('bundled code table unavailable: %s' % str(out)[:200])
+        _BUNDLED.append([(int(k), str(v)) for k, v in out['codes']])
+    d = PDict()
+    d.d = {k: (True, v) for k, v in _BUNDLED[0]}
+    d.order = tuple(k for k, _ in _BUNDLED[0])
+    return d
 
 
 def fresh_bytes(ctx, name, n):
